@@ -145,7 +145,7 @@ PROPS = {
     "C08": dict(level="other", scans=_scan_suspend, native_budget=30,
                 extra=lambda prog, S, tier, seed: [__import__("extras").run_children("config_sweep", REPO, seed, 96 if tier == "quick" else 600, procs=12, timeout=3000),
                                                     __import__("extras").run_child("get_pool_exhaustive", REPO)]),
-    "C12": dict(level="other", scans=_scan_suspend, native_budget=30,
+    "C12": dict(level="other", scans=_scan_suspend, native_budget=45,
                 extra=lambda prog, S, tier, seed: [__import__("extras").run_child("get_pool_exhaustive", REPO)]),
     "C16": dict(scans=_scan_suspend, native_budget=25),
     "C17": dict(scans=_scan_suspend),
